@@ -482,6 +482,10 @@ class PrimMixin(object):
             if isinstance(recv, VConst) and isinstance(recv.v, str) and name == "encode":
                 return [(VConst(recv.v.encode()), st)]
             bt = self.bytes_term(recv)
+            if name == "decode" and not kwargs.get("errors") and len(args) < 2:
+                # bytes.decode() is partial: UnicodeDecodeError unless the octets are known text
+                known = is_digit_string(bt) or isinstance(recv, VConst) or (isinstance(bt, tuple) and bt and bt[0] in ("fmt", "dynfmt", "str", "b64encode", "hexlify", "enc"))
+                self.oblige(ctx, st, node, bool(known), "UnicodeDecodeError", "decode() of octets that are not known to be valid text")
             t = ("enc", bt)
             L, bl = Lin.sym(("len", t)), Lin.sym(("len", bt))
             if is_digit_string(bt) or (isinstance(bt, tuple) and bt and bt[0] in ("fmt", "dynfmt", "str")):
